@@ -238,6 +238,12 @@ def run_case(case):
         slow = common.run_program(case, ["slow-listener", 25])
         if fast != slow:
             out.fail("digest-differs-slow-starting-listener", _first_diff(fast, slow))
+    if not out.disc and digest(case)[1] % 3 == 0:
+        fast = common.run_program(case, ["fast-stop-listener", 0, case["frac"]])
+        slow = common.run_program(case, ["slow-stop-listener", 0.03, case["frac"]])
+        out.label("slow-stop-listener-variant")
+        if fast != slow:
+            out.fail("digest-differs-slow-stop-listener", _first_diff(fast, slow))
     del keep
     if probe.calls:
         out.fail("initial-method-of-another-simulator-executed", {"calls": probe.calls})
